@@ -155,3 +155,23 @@ def run(chk, F, tier):
                                     "filter_branches": sorted(cut)},
                   sample={"rule": "R27b", "handler": key, "filter_branches": len(cut), "verdict": "every non-filtered path updates the analysis"})
     chk.floor("handlers recording document text", nh, 2)
+
+    # R27c: every text the editor sends for an open document is recorded, whether or not the file is analysed right now
+    chk.rule("R27c", "didOpen/didChange record the text (sync_open_file) on every path except a malformed notification (`?` exits): the table of "
+                     "open texts is what a later reload applies, also for files that only become workspace files then")
+    for b in F.bodies.values():
+        if b.crate != LS or "::test" in b.id or not b.id.startswith(LS + "::handlers::text_document::text_document_handler::"):
+            continue
+        if not (b.id.endswith("on_did_open_text_document::{closure#0}") or b.id.endswith("on_did_change_text_document::{closure#0}")):
+            continue
+        succ = b.succ_map()
+        syncs = {bb for bb, c in b.calls() if name(c) == SYNC}
+        resid = {bb for bb, c in b.calls() if "FromResidual" in name(c)}
+        sub = [[y for y in v if y not in resid] if k not in resid else [] for k, v in enumerate(succ)]
+        p = cfgutil.paths_avoiding(sub, 0, set(b.returns()), syncs)
+        key = "record-always@%s" % b.id.split("::")[-2]
+        chk.check(bool(syncs) and p is None, "R27c", key,
+                  "the handler can return without sync_open_file on a path that is not a `?` exit (for instance the workspace filter now comes first): the "
+                  "newest text of an open document is not recorded, and a reload that makes the file part of the workspace analyses the text it had before",
+                  b.loc(), witness={"path_blocks": p, "lines": sorted({b.blocks[x][2][1]["l"] for x in (p or []) if b.blocks[x][2][0] == "call"})[:10]},
+                  sample={"rule": "R27c", "handler": key, "verdict": "recorded on every path"})
